@@ -134,7 +134,9 @@ Record lcase := {
   lc_leaked_timers : nat;         (* timers ... *)
   lc_stop_data_last : bool;       (* every started output block delivered its stop_data last *)
   lc_restart_refused : bool;      (* a second run_forever() raises EdzedInvalidState *)
-  lc_modify_refused : bool }.     (* adding a block afterwards raises *)
+  lc_modify_refused : bool;       (* adding a block afterwards raises *)
+  lc_async_cleanup_us : Z;        (* virtual time from the first stop_async start to the last stop_async end *)
+  lc_max_stop_timeout_us : Z }.   (* the largest stop_timeout among the blocks cleaned up asynchronously *)
 
 Definition lcase_agree (k : lcase) : bool := accepted (lc_plan k) (lc_log k).
 
@@ -142,7 +144,9 @@ Definition lcase_monitor (k : lcase) : bool :=
   stops_exactly_started (lp_n (lc_plan k)) (lc_log k) &&
   all_saend_before_sync_stop (lc_plan k) (lc_log k) &&
   Nat.eqb (lc_leaked_tasks k) 0 && Nat.eqb (lc_leaked_timers k) 0 &&
-  lc_stop_data_last k && lc_restart_refused k && lc_modify_refused k.
+  lc_stop_data_last k && lc_restart_refused k && lc_modify_refused k &&
+  (* the asynchronous clean-up is bounded by stop_timeout (the tasks run concurrently) *)
+  (lc_async_cleanup_us k <=? lc_max_stop_timeout_us k + 1000)%Z.
 
 Definition l_verdict (k : lcase) : ascii :=
   (if lcase_monitor k then (if lcase_agree k then "A" else "R") else "V")%char.
